@@ -87,6 +87,7 @@ def run(tier, seed):
         FLAGS = [("", 200001), ("-c", 200002), ("--nosmart", 200003), ("--nolabels", 200004), ("--notransclude", 200005)]
         mblocks = [bi for bi in range(len(blocks)) if blocks[bi]["m"]][:: max(1, len(blocks) // 3)][:3]
         nometa = [bi for bi in range(len(blocks)) if not blocks[bi]["m"]][:1]
+        mblocks += [bi for bi in range(len(blocks)) if blocks[bi]["m"] in ([13], [14], [8, 13], [14, 8])]          # (keys that begin like 'mmd footer' / 'mmd header': only the command line looks those up)
         jobs = []
         for bn in [b_ for b_ in BODIES if b_ != "keylike"][: (3 if tier == "quick" else 7)]:
             for bi in nometa + mblocks:
